@@ -116,7 +116,33 @@ class Prover:
         if r == z3.sat:
             self.obligations.append(Obligation(name, "refuted", "z3", dt, model=s.model(), detail=detail, mode=self.mode))
             return False
-        # unknown: second opinion
+        # unknown (in practice: a timeout while all cores are busy, or an unlucky instantiation order): the same query again
+        # with other random seeds and a longer budget - quantifier instantiation in z3 is seed sensitive - before the
+        # second opinion.  Only `unsat` / `sat` answers count; a verdict never depends on which attempt produced it.
+        budget = getattr(self, "_retries_left", 6)  # at most six obligations per function get the extra attempts (bounds the run time on broken code)
+        self._retries_left = budget - 1
+        for attempt, seed in enumerate((7, 23) if budget > 0 else (), 1):
+            s_retry = z3.Solver()
+            s_retry.set("timeout", Z3_TIMEOUT_MS * (2 + attempt))
+            s_retry.set("random_seed", seed)
+            z3.set_param("smt.random_seed", seed)
+            for c in pc:
+                s_retry.add(zbool(c))
+            s_retry.add(z3.Not(goal))
+            t = time.time()
+            rr = s_retry.check()
+            dtr = time.time() - t
+            self.solver_seconds += dtr
+            dt += dtr
+            if rr == z3.unsat:
+                z3.set_param("smt.random_seed", 0)
+                self.obligations.append(Obligation(name, "discharged", "z3", dt, mode=self.mode))
+                return True
+            if rr == z3.sat:
+                z3.set_param("smt.random_seed", 0)
+                self.obligations.append(Obligation(name, "refuted", "z3", dt, model=s_retry.model(), detail=detail, mode=self.mode))
+                return False
+        z3.set_param("smt.random_seed", 0)
         t = time.time()
         r2 = _cvc5_check(s, CVC5_TIMEOUT_MS)
         dt2 = time.time() - t
